@@ -109,6 +109,52 @@ class Report:
         self.errors += other.errors
 
 
+def _bounded_child(modname: str, pid: str, level: str, tier: str, seed: int, q) -> None:
+    try:
+        mod = importlib.import_module(modname)
+        sub = Report(property_id=pid, level=level)
+        mod.bounded(sub, tier, seed)
+        q.put(("ok", sub))
+    except Exception:
+        q.put(("error", traceback.format_exc()[-1500:]))
+
+
+def run_bounded(rep: Report, modname: str, tier: str, seed: int, timeout_s: int) -> None:
+    """run `<modname>.bounded(sub_report, tier, seed)` in a child process under a wall-clock limit and merge the
+    sub-report into rep.  A time-out or crash is never a verdict: a time-out is recorded in
+    rep.extra["bounded_timed_out"], a crash in rep.errors, and the bounded part then contributes nothing."""
+    import multiprocessing as mp
+
+    ctx = mp.get_context("fork")
+    q = ctx.Queue()
+    p = ctx.Process(target=_bounded_child, args=(modname, rep.property_id, rep.level, tier, seed, q))
+    p.start()
+    try:
+        kind, payload = q.get(timeout=timeout_s)
+    except Exception:
+        kind, payload = "timeout", None
+    if kind == "timeout":
+        p.terminate()
+        p.join(5)
+        if p.is_alive():
+            p.kill()
+        rep.extra.setdefault("bounded_timed_out", []).append({"module": modname, "limit_s": timeout_s})
+        return
+    p.join(10)
+    if kind == "error":
+        rep.errors.append("bounded module %s crashed: %s" % (modname, payload))
+        return
+    rep.merge_bounded(payload)
+    for attr in ("rule", "bounded_label", "explanation"):
+        if getattr(payload, attr) and not getattr(rep, attr):
+            setattr(rep, attr, getattr(payload, attr))
+    rep.assumptions += payload.assumptions
+    rep.trusted_base += payload.trusted_base
+    rep.functions_under_contract += payload.functions_under_contract
+    for k, v in payload.extra.items():
+        rep.extra.setdefault(k, v)
+
+
 def load_known_findings() -> Dict[str, Any]:
     try:
         with open(KNOWN_FINDINGS) as f:
